@@ -83,6 +83,7 @@ func New(id, tier string) *Ctx {
 	}
 	c := &Ctx{ID: id, Tier: tier, Seed: seed, Scratch: scratch, Start: time.Now(), Level: "model_checking",
 		Extra: map[string]any{}, Actions: map[string]int64{}, knownHit: map[string]int{}}
+	os.RemoveAll(filepath.Join(Root, "replays", id)) // replay files of earlier runs are stale
 	b, err := os.ReadFile(filepath.Join(Root, "known_findings.json"))
 	if err == nil {
 		var all []Finding
